@@ -17,7 +17,7 @@ NCPU = os.cpu_count() or 8
 class Q:
     """One solver query = harness x shim x configuration x bound."""
     def __init__(s, name, harness, shim, defs=None, config='real', cxxdefs=(), unwind=8, unwindset=None,
-                 models=('core', 'libc'), stubs=(), allow_aborts=(), ub=False, timeout=None, mem_gb=12,
+                 models=('core', 'libc'), stubs=(), allow_aborts=(), ub=False, timeout=None, mem_gb=6,
                  tiers=('quick', 'thorough'), cbmc_extra=(), roots=None, noinline=False, bound=None,
                  object_bits=None, replay=True, note=None, loops=(), hunwind=None, heap_cap=64, solver=None):
         s.name = name; s.harness = harness; s.shim = shim; s.defs = dict(defs or {}); s.config = config
@@ -206,7 +206,29 @@ def parse_cbmc(text):
         if 'cProverStatus' in e: res['status'] = e['cProverStatus']
     return res
 
+import threading
+MEM_TOTAL_GB = int(os.environ.get('VP_MEM_GB', '48'))   # budget shared by the queries running in parallel (this sandbox has 62 GB, no swap)
+class MemBudget:
+    def __init__(s, total): s.total = total; s.used = 0; s.cv = threading.Condition()
+    def acquire(s, n):
+        n = min(n, s.total)
+        with s.cv:
+            while s.used + n > s.total: s.cv.wait()
+            s.used += n
+        return n
+    def release(s, n):
+        with s.cv: s.used -= n; s.cv.notify_all()
+MEM = MemBudget(MEM_TOTAL_GB)
+
 def run_query(ctx, q, tier):
+    need = q.mem_gb if tier == 'quick' else max(q.mem_gb, 12)
+    got = MEM.acquire(need)
+    try:
+        return run_query_(ctx, q, tier)
+    finally:
+        MEM.release(got)
+
+def run_query_(ctx, q, tier):
     t0 = time.time()
     prep = prepare_query(ctx, q)
     if prep['status'] != 'ok':
@@ -232,7 +254,7 @@ def run_query(ctx, q, tier):
         if us: cmd += ['--unwindset', ','.join('%s:%d' % kv for kv in us.items())]
     timeout = q.timeout or (150 if tier == 'quick' else 900)
     outp = os.path.join(prep['dir'], 'cbmc.json')
-    r = run(cmd, timeout=timeout, mem_gb=q.mem_gb if tier == 'quick' else max(q.mem_gb, 24), stdout_path=outp)
+    r = run(cmd, timeout=timeout, mem_gb=q.mem_gb if tier == 'quick' else max(q.mem_gb, 12), stdout_path=outp)
     open(os.path.join(prep['dir'], 'cmd.txt'), 'w').write(' '.join(cmd) + '\n')
     res = {'q': q, 'prep': prep, 'wall': time.time() - t0, 'cbmc_wall': r['wall'], 'cmd': cmd}
     if r['timeout']:
